@@ -20,6 +20,16 @@ impl RemoveUnusedVariableProcessor {
     }
 }
 
+fn has_repeated_name<'a>(variables: impl Iterator<Item = &'a TypedIdentifier>) -> bool {
+    let names: Vec<&str> = variables
+        .map(|variable| variable.get_name().as_str())
+        .collect();
+    names
+        .iter()
+        .enumerate()
+        .any(|(index, name)| names[..index].contains(name))
+}
+
 impl NodeProcessor for RemoveUnusedVariableProcessor {
     fn process_scope(&mut self, block: &mut Block, extra: Option<&mut Expression>) {
         let length = block.statements_len();
@@ -120,7 +130,11 @@ impl NodeProcessor for RemoveUnusedVariableProcessor {
                                 *statement = expressions_as_statement(values);
                                 true
                             }
-                        } else if usages.iter().any(|used| !used) {
+                        } else if usages.iter().any(|used| !used)
+                            && !has_repeated_name(assign.iter_variables())
+                        {
+                            // (regrouping reorders the variables: with a repeated name that
+                            // would change which declaration is visible afterwards)
                             let mut assignments: Vec<_> = assign
                                 .iter_variables()
                                 .zip(usages.iter())
